@@ -7,7 +7,8 @@
    HandlerSpec.v   what the property demands of each handler (hand-written) *)
 From Coq Require Import ZArith List Bool String.
 From PK Require Import Policy.Policy Policy.PolicyProofs Policy.AccessTypes Policy.Access Policy.AccessProofs
-                       Policy.HandlerSpec Policy.HandlerSpecProofs Policy.DeniedLikeMissing.
+                       Policy.HandlerSpec Policy.HandlerSpecProofs Policy.DeniedLikeMissing
+                       Policy.PolicyFile Policy.PolicyFileProofs.
 From PKGen Require Import HandlerAccessOps DefaultPolicies.
 Import ListNotations.
 Open Scope Z_scope.
@@ -124,6 +125,35 @@ Theorem builtin_default_owner_only : forall id owner ot op,
   allowed_by_policy default_policies "default" id owner ot op = true -> id_user id = owner.
 Proof. exact HandlerSpecProofs.builtin_default_owner_only. Qed.
 Print Assumptions builtin_default_owner_only.
+
+(* =========================================================================== policy files *)
+
+(* User policies reach the engine through kmip.core.policy.read_policy_from_file.  [load_document] is what the
+   loader builds (it drops empty sections and empty bodies and accepts the legacy layout), [document_meaning]
+   what the document says; the engine's policy store is the built-ins updated with the loaded policies.
+   The engine decides on the loaded store exactly as on the document's meaning ... *)
+Theorem loading_preserves_decisions : forall base d pn id owner ot op,
+  allowed_by_policy (overlay base (load_document d)) pn id owner ot op
+  = allowed_by_policy (overlay base (document_meaning d)) pn id owner ot op.
+Proof. exact loading_preserves_decisions_l. Qed.
+Print Assumptions loading_preserves_decisions.
+
+(* ... hence whatever it allows is granted by the DOCUMENT (same hypothesis as decision_sound_partial) *)
+Theorem loaded_file_sound_partial : forall base d pn id owner ot op,
+  wf_identity id ->
+  allowed_by_policy (overlay base (load_document d)) pn id owner ot op = true ->
+  granted_spec (overlay base (document_meaning d)) pn id owner ot op.
+Proof. exact loaded_file_sound_l. Qed.
+Print Assumptions loaded_file_sound_partial.
+
+Example loading_nonvacuous :
+  let d := [("p", DSections (Some []) (Some [("G", [(2, [(10, AllowAll)])])])); ("q", DLegacy [(1, [(8, AllowOwner)])]);
+            ("e", DSections None None)] in
+  load_document d = [("p", {| preset := None; groups := Some [("G", [(2, [(10, AllowAll)])])] |});
+                     ("q", {| preset := Some [(1, [(8, AllowOwner)])]; groups := None |})] /\
+  allowed_by_policy (overlay default_policies (load_document d)) "p"
+                    {| id_user := Some "bob"; id_groups := Some ["G"] |} (Some "alice") 2 10 = true.
+Proof. split; vm_compute; reflexivity. Qed.
 
 (* =========================================================================== the choke points *)
 
